@@ -576,6 +576,9 @@ def _pair_task(args):
     n = t["lines"][0] + 2
     if mode == "all":
         points = range(0, n + 1)
+    elif mode.startswith("stride"):     # thorough tier of the slow kinds: every k-th point, phase from the pair
+        k = int(mode[6:])
+        points = range((ia + ib) % k, n + 1, k)
     elif mode == "dense":      # the copy of a list of trials is hundreds of lines long: about 40 evenly spread points
         points = range(0, n + 1, max(1, n // 40))
     else:
@@ -807,7 +810,10 @@ def run(ctx):
             for ib in range(n_al):
                 if ctx.quick and (ia * 7 + ib * 3 + ctx.seed) % (12 if kind == "cached_rdb_threads" else 8) != 0:
                     continue
-                tasks.append((kind, ia, ib, "sample" if ctx.quick else "all"))
+                # thorough: every point; on the slow kinds (SQLite inside, gRPC stubs) every 3rd / 2nd point (the pairs
+                # of priority_pairs() run with every point in both tiers)
+                deep = "stride3" if kind == "cached_rdb_threads" else "stride2" if kind.startswith("grpc_stub") else "all"
+                tasks.append((kind, ia, ib, "sample" if ctx.quick else deep))
         for ia, ib in priority_pairs(kind):
             tasks.append((kind, ia, ib, "dense"))
     traces = []
